@@ -460,9 +460,11 @@ class OscBundle(object):
             while self._dgram[index:]:
                 # Get the sub content size.
                 content_size, index = get_int(self._dgram, index)
-                if content_size < 0:
+                if content_size < 0\
+                or index + content_size > len(self._dgram):
                     # A negative size would move the index backwards and
-                    # parse the same bytes forever.
+                    # parse the same bytes forever, a size beyond the end
+                    # of the packet would parse a truncated element.
                     raise OscBundleParseError(
                         f'Invalid bundle element size {content_size}')
                 # Get the datagram for the sub content.
